@@ -165,7 +165,10 @@ Definition chk_C20_pair (a b : src) (o : pair_obs) : N :=
       || maps_differ (get_map (nth_ans (po_a o) 2)) (get_map (nth_ans (po_b o) 2))
       || maps_differ (get_map (nth_ans (po_a o) 3)) (get_map (nth_ans (po_b o) 3)) in
     if differ then
-      if hevs_eqb (get_hash (nth_ans (po_a o) 6)) (get_hash (nth_ans (po_b o) 6)) then 1
+      if hevs_eqb (get_hash (nth_ans (po_a o) 6)) (get_hash (nth_ans (po_b o) 6)) then
+        (* K6: the ingredient sequences fed to the hasher coincide by design - a ConcatSource
+           does not delimit its children *)
+        (if hevs_eqb (hash_events a) (hash_events b) then 56 else 1)
       else if po_eq o then 2
       else 0
     else 0.
